@@ -306,6 +306,7 @@ type scnRun struct {
 	maxCb    int
 	over     bool
 	mu       sync.Mutex
+	flowRun  bool // call the convenience method (*Flow).Run instead of flyt.Run
 	visitLog bool // append node ids to a list in the store (C10 differential)
 }
 
@@ -690,9 +691,38 @@ func assignKinds(c *EngineCfg) {
 }
 
 // runEngineScenario executes one scenario on the real library and returns its history.
+// flowRunAgrees re-executes the scenario through (*Flow).Run and compares everything observable
+// with the execution through flyt.Run (Flow.Run returns no action, so the action is not compared).
+func flowRunAgrees(cfg EngineCfg, mk func() Script, ref []Event) bool {
+	if len(cfg.Nodes) == 0 || cfg.Nodes[cfg.Top-1].Kind != "flow" {
+		return true
+	}
+	evs, _ := runEngineScenarioOpt(cfg, mk(), true)
+	if len(evs) != len(ref) {
+		return false
+	}
+	for i := range evs {
+		a, b := evs[i], ref[i]
+		if a["ev"] == "runret" {
+			if a["iserr"] != b["iserr"] || a["ctxerr"] != b["ctxerr"] || fmt.Sprint(a["errs"]) != fmt.Sprint(b["errs"]) {
+				return false
+			}
+			continue
+		}
+		if fmt.Sprint(a) != fmt.Sprint(b) {
+			return false
+		}
+	}
+	return true
+}
+
 func runEngineScenario(cfg EngineCfg, script Script) ([]Event, *scnRun) {
+	return runEngineScenarioOpt(cfg, script, false)
+}
+
+func runEngineScenarioOpt(cfg EngineCfg, script Script, viaFlowRun bool) ([]Event, *scnRun) {
 	assignKinds(&cfg)
-	s := &scnRun{cfg: cfg, reg: NewRegistry(), script: script, store: flyt.NewSharedStore(), tok: 1,
+	s := &scnRun{flowRun: viaFlowRun, cfg: cfg, reg: NewRegistry(), script: script, store: flyt.NewSharedStore(), tok: 1,
 		nodes: map[int]flyt.Node{}, maxCb: 400}
 	for id := range cfg.Nodes {
 		s.node(id+1, 0)
@@ -736,7 +766,14 @@ func runEngineScenario(cfg EngineCfg, script Script) ([]Event, *scnRun) {
 					s.log(Event{"ev": "panic", "msg": fmt.Sprint(p)})
 				}
 			}()
-			action, err = flyt.Run(ctx, s.nodes[cfg.Top], s.store)
+			if f, isFlow := s.nodes[cfg.Top].(*flyt.Flow); isFlow && s.flowRun {
+				err = f.Run(ctx, s.store)
+				if err == nil {
+					action = "?" // Flow.Run does not report the action
+				}
+			} else {
+				action, err = flyt.Run(ctx, s.nodes[cfg.Top], s.store)
+			}
 		}()
 		select {
 		case <-finished:
